@@ -426,6 +426,14 @@ def _get_comp_cls_media(comp_cls: Type["Component"]) -> Any:
         media_input = getattr(curr_cls, "Media", None)
         media_extend = getattr(media_input, "extend", True)
 
+        # The paths inside `Media` are resolved lazily, together with `template`, `js` and `css` of the class
+        # that defines the `Media`. Do it before reading them, so `media` does not depend on the access order.
+        for base in curr_cls.mro() if media_input is not None else ():
+            base_comp_media: Optional[ComponentMedia] = getattr(base, "_component_media", None)
+            if base_comp_media is not None and base_comp_media.Media is media_input:
+                _resolve_media(base, base_comp_media)
+                break
+
         # This ensures the same behavior as Django's Media class, where:
         # - If `Media.extend == True`, then the media files are inherited from the parent classes.
         # - If `Media.extend == False`, then the media files are NOT inherited from the parent classes.
